@@ -1,7 +1,7 @@
 /-
 C30 (a) — model of the pure range logic of `FileScheduler::submit_request`
-(rust/lance-io/src/scheduler.rs) as it stands in /repo (after the two C30 `fix:` commits: an empty requested range gets an
-empty buffer without consulting the cursor; the copy-back loop no longer moves the piece cursor).
+(rust/lance-io/src/scheduler.rs) as it stands in /repo (after the C30 `fix:` commit: empty requested ranges take no part in
+coalescing and get an empty buffer without consulting the piece cursor; the copy-back loop no longer moves the piece cursor).
 
 Not modelled: u64 overflow of `range.end + block_size`; ranges with start > end (`IoTask::num_bytes` underflows on them);
 `max_iop_size = 0` (division by zero in the code).  The reader is the assumption
@@ -34,10 +34,13 @@ def coalesceGo (bs : Nat) (cur : Rng) : List Rng → List Rng
     if closeTogether cur r bs then coalesceGo bs ⟨cur.s, max cur.e r.e⟩ rest
     else cur :: coalesceGo bs r rest
 
-/-- `merged_requests` of `FileScheduler::submit_request` -/
-def coalesce (bs : Nat) : List Rng → List Rng
+/-- `merged_requests` of `FileScheduler::submit_request` given the iterator `non_empty` -/
+def coalesceNE (bs : Nat) : List Rng → List Rng
   | [] => []
   | r :: rest => coalesceGo bs r rest
+
+/-- `merged_requests`: `request.iter().filter(|req| !req.is_empty())` is coalesced -/
+def coalesce (bs : Nat) (rs : List Rng) : List Rng := coalesceNE bs (rs.filter (fun r => !r.isEmpty))
 
 /-- `u64::div_ceil` -/
 def divCeil (a b : Nat) : Nat := a / b + (if a % b = 0 then 0 else 1)
@@ -89,23 +92,20 @@ def serve (file : Nat → Nat) (u : Rng) (us : List Rng) (o : Rng) : Option Buf 
   else if o.e ≤ u.e then some (bslice (fetch file u) (o.s - u.s) (o.e - u.s))
   else copyLoop file (o.e - o.s) ((fetch file u).drop (o.s - u.s)) us
 
-/-- the un-coalesce loop `while updated_index < updated_requests.len() && orig_index < request.len()`;
+/-- the un-coalesce loop `while orig_index < request.len()`;
     first argument = `updated_requests[updated_index..]`, second = `request[orig_index..]`.
-    Leaving the loop early (pieces exhausted) returns the buffers collected so far. -/
+    An empty range is answered with `Bytes::new()`; running out of pieces (`break`) returns the buffers collected so far. -/
 def uncoalesce (file : Nat → Nat) : List Rng → List Rng → Option (List Buf)
   | _, [] => some []
   | us, o :: rs =>
-    match us with
-    | [] => some []
-    | u0 :: us0 =>
-      if o.isEmpty then (uncoalesce file (u0 :: us0) rs).map ([] :: ·)
-      else
-        match skipTo o (u0 :: us0) with
-        | [] => some []
-        | u :: us' =>
-          match serve file u us' o with
-          | none => none
-          | some b => (uncoalesce file (u :: us') rs).map (b :: ·)
+    if o.isEmpty then (uncoalesce file us rs).map ([] :: ·)
+    else
+      match skipTo o us with
+      | [] => some []
+      | u :: us' =>
+        match serve file u us' o with
+        | none => none
+        | some b => (uncoalesce file (u :: us') rs).map (b :: ·)
 
 /-- `FileScheduler::submit_request` end to end: `none` = panic, `some bufs` = `Ok(final_bytes)` -/
 def respond (file : Nat → Nat) (bs maxSz : Nat) (rs : List Rng) : Option (List Buf) :=
@@ -113,5 +113,32 @@ def respond (file : Nat → Nat) (bs maxSz : Nat) (rs : List Rng) : Option (List
 
 /-- number of IOPs issued (`updated_requests.len()`, visible as `ScanStats::iops`) -/
 def numIops (bs maxSz : Nat) (rs : List Rng) : Nat := (splitAll maxSz (coalesce bs rs)).length
+
+/-! ### `LanceEncodingsIo::submit_request` (rust/lance-file/src/io.rs) on top of the file scheduler -/
+
+/-- the chunk split of one range: `if range_size > read_chunk_size { num_chunks = div_ceil; chunk_size = size / num_chunks; … }` -/
+def chunkOne (chunk : Nat) (r : Rng) : List Rng :=
+  if r.e - r.s > chunk then
+    splitGo r.s r.e ((r.e - r.s) / divCeil (r.e - r.s) chunk) (divCeil (r.e - r.s) chunk)
+  else [r]
+
+/-- `split_ranges` -/
+def chunkAll (chunk : Nat) : List Rng → List Rng
+  | [] => []
+  | r :: rest => chunkOne chunk r ++ chunkAll chunk rest
+
+/-- the slow-path reassembly: `results[orig_idx].push(..)` over `zip(split_results, split_indices)`, then per range the single
+    chunk or the concatenation; the first argument is the number of chunks of each range -/
+def regroup : List Nat → List Buf → List Buf
+  | [], _ => []
+  | n :: ns, bufs => (bufs.take n).flatten :: regroup ns (bufs.drop n)
+
+/-- `LanceEncodingsIo::submit_request`: fast path when no splitting occurred (`split_results.len() == ranges.len()`) -/
+def encRespond (file : Nat → Nat) (chunk bs maxSz : Nat) (rs : List Rng) : Option (List Buf) :=
+  match respond file bs maxSz (chunkAll chunk rs) with
+  | none => none
+  | some res =>
+    if res.length = rs.length then some res
+    else some (regroup (rs.map (fun r => (chunkOne chunk r).length)) res)
 
 end LanceModel.C30
